@@ -429,6 +429,20 @@ def json_to_struct(text):
     return 'Value { ' + ', '.join(fields) + ' }'
 
 
+def json_to_opaque(text):
+    m = mask(text)
+    o = text.index('{')
+    c = match_bracket(m, o)
+    parts = _split_top(text[o + 1:c])
+    out = 'jnil()'
+    for p in reversed(parts):
+        pm = re.match(r'\s*"([A-Za-z0-9_]+)"\s*:\s*(.*)$', p, re.S)
+        if not pm:
+            raise ExtractError('R6o: unsupported json! entry %r' % p[:40])
+        out = 'jcons(vj(&(%s)), %s)' % (pm.group(2).strip(), out)
+    return out
+
+
 # ------------------------------------------------------------------------------ driver
 def transform_fn(text, spec):
     """spec: dict with keys
@@ -564,6 +578,10 @@ def transform_fn(text, spec):
     if 'R6' in rules:
         for a, o, c in macro_calls(sh, 'json'):
             edits.append((a, c, json_to_struct(t[o:c])))
+    # R6o: json!({ "k": e, ... }) => jcons(vj(&(e)), ... jnil()) : an opaque JSON value that still evaluates every member expression
+    if 'R6o' in rules:
+        for a, o, c in macro_calls(sh, 'json'):
+            edits.append((a, c, json_to_opaque(t[o:c])))
     for key, val in spec.get('macros', {}).items():
         for a, o, c in macro_calls(sh, key):
             edits.append((a, c, val))
